@@ -25,7 +25,7 @@
  * ops: conn cN hook=accept|hold|refuse [ws=G] [nb=1] | ver|sec|init S|enc E|req|scale K|pf|key|junk|
  *      partial|ft|send HEX|closepeer|resetpeer cN (each: write to the peer socket, then run the event
  *      loop to rest) | appclose|start|refuse cN | kbdclose cN | gonekick cN cM | ext | pump | out cN |
- *      shutdown | cleanup | end
+ *      draw SEED (repaint the framebuffer, mark it modified, run the loop) | shutdown | cleanup | end
  */
 #define _GNU_SOURCE
 #include "sess.h"
@@ -394,6 +394,12 @@ static void __attribute__((noinline)) run_ops(void) {
       print_state(); fflush(stdout); continue;
     }
     if (!strcmp(tok[0], "ext") && n == 1) { rfbRegisterProtocolExtension(&harness_ext); print_state(); fflush(stdout); continue; }
+    if (!strcmp(tok[0], "draw") && n == 2) {   /* the application paints, then the loop runs to rest */
+      int seed = atoi(tok[1]), k;
+      for (k = 0; k < 64 * 48 * 4; k++) scr->frameBuffer[k] = (char)((k / 5) * (seed + 3) + (k % 7));
+      rfbMarkRectAsModified(scr, 0, 0, 64, 48);
+      pump(); print_state(); fflush(stdout); continue;
+    }
     if (!strcmp(tok[0], "pump") && n == 1) { pump(); print_state(); fflush(stdout); continue; }
     if (!strcmp(tok[0], "shutdown") && n == 1) { rfbShutdownServer(scr, TRUE); print_state(); fflush(stdout); continue; }
     if (!strcmp(tok[0], "cleanup") && n == 1) {
